@@ -79,7 +79,7 @@ C19_Bound == \A c \in Classes :
    /\ \A k \in DOMAIN names[c] : \A i \in 1..Len(names[c][k]) : byName[c][names[c][k][i]] = k
    /\ \A k \in DOMAIN syms[c] : \A i \in 1..Len(syms[c][k]) : bySym[c][syms[c][k][i]] = k
 \* a successful declaration is visible afterwards, whatever happened before
-C19_Declared == (ev.out = "ok" /\ ev.op \notin {"anon", "init", "lookup"}) =>
+C19_Declared == (ev.out = "ok" /\ ev.op \notin {"anon", "init", "lookup", "snap", "restore"}) =>
    /\ (ev.n # "" => ev.n \in DOMAIN byName[ev.c] /\ byName[ev.c][ev.n] = ev.k /\ Has(NamesOf(ev.c, ev.k), ev.n))
    /\ (ev.s # "" => ev.s \in DOMAIN bySym[ev.c] /\ bySym[ev.c][ev.s] = ev.k /\ Has(SymsOf(ev.c, ev.k), ev.s))
 \* a name or symbol is never bound to two different objects (no key of a registry ever changes its value)
